@@ -58,15 +58,17 @@ class Deco:
         if rng.random() < p * 0.6:
             r = rng.random()
             name = f"{where}l{uid()}"
+            # a link inside a quoted word is still a link (only quoted PROPERTIES are skipped)
+            q = rng.choice(["'", '"']) if rng.random() < 0.25 else ""
             if r < 0.6:
                 d["links"].append(name)
-                d["words"].append(f"[[{name}]]")
+                d["words"].append(f"{q}[[{name}]]{q}")
             elif r < 0.8:
                 d["links"].append("global:" + name)
-                d["words"].append(f"[#{name}]")
+                d["words"].append(f"{q}[#{name}]{q}")
             else:
                 d["links"].append("ref:" + name)
-                d["words"].append(f"[@{name}]")
+                d["words"].append(f"{q}[@{name}]{q}")
         if rng.random() < p * 0.6:
             key = rng.choice(["k", "k", f"{where}p{uid()}"])
             val = f"v{uid()}"
@@ -195,7 +197,7 @@ def body(ctx: C.Ctx, proof: C.ProofStatus) -> C.Result:
 
 RULE = (
     "every legal header sequence up to 6 (quick) / 8 (thorough) headers, exhaustively, each with uniquely named random decorations (tags of the four "
-    "kinds, all-digit tags, tags of digits joined by underscores / with a trailing letter, page/global/ref links, shared and unique property keys, dates) on the title line, a second header line, every section "
+    "kinds, all-digit tags, tags of digits joined by underscores / with a trailing letter, page/global/ref links (a quarter of them inside quoted words), shared and unique property keys, dates) on the title line, a second header line, every section "
     "header, in-block comments and the probe notes themselves; one or two probe notes per section; compiled metadata vs the union the statement "
     "prescribes and vs the Lean Zo model; non-trivial = page with at least one section header"
 )
